@@ -401,6 +401,16 @@ func computedMask(typ string, p, m []byte) {
 				for i := 0; i < n && base+i*dl < len(m); i++ {
 					m[base+i*dl] = 0xff
 				}
+			} else if dl == 0 {
+				// every entry is preceded by its own description_length
+				pos := base
+				for i := 0; i < n && pos+5 <= len(p); i++ {
+					el := int(p[pos])<<24 | int(p[pos+1])<<16 | int(p[pos+2])<<8 | int(p[pos+3])
+					if el >= 20 {
+						m[pos+4] = 0xff
+					}
+					pos += 4 + el
+				}
 			}
 		}
 	case typ == "silb":
